@@ -9,12 +9,14 @@ Binding B: seeded random longer messages (several per connection, long bodies, m
            through the real parsers, the executions recorded and validated by TLC against HttpParseTrace.tla.
 """
 import json
+import os
 import random
 
 from .. import env, graph, replay, tlc, trace
 from ..replay import Divergence
 
 SPEC_DIR = env.SPECS + "/http"
+os.environ.setdefault("VF_LENIENT", "0")   # read by the trace specifications (diagnosis switch)
 
 # symbolic bytes of the specifications <-> octets
 SYM = {"CR": 13, "LF": 10, "SP": 32, "HT": 9, "HI": 0xE9}
@@ -22,11 +24,19 @@ INV = {v: k for k, v in SYM.items()}
 
 
 def to_bytes(syms):
-    return bytes(SYM[s] if s in SYM else ord(s) for s in syms)
+    out = bytearray()
+    for s in syms:
+        if s in SYM:
+            out.append(SYM[s])
+        elif len(s) == 3 and s[0] == "x":     # "xEF" = octet 0xEF
+            out.append(int(s[1:], 16))
+        else:
+            out.append(ord(s))
+    return bytes(out)
 
 
 def to_syms(bs):
-    return tuple(INV[b] if b in INV else chr(b) for b in bytes(bs))
+    return tuple(INV[b] if b in INV else (chr(b) if b < 0x80 else "x%02X" % b) for b in bytes(bs))
 
 
 def text_syms(s):
@@ -104,6 +114,7 @@ CONSTANTS
   Level = %d
   MaxPieces = %d
   NSc <- FamN
+  MaxK <- FamMaxLen
   ScWire <- FamWire
   ScKind <- FamKind
   ScMsgs <- FamMsgs
@@ -117,6 +128,7 @@ INVARIANT DoneIffComplete
 TRACE_CFG = """SPECIFICATION TraceSpec
 CONSTANTS
   MaxPieces = 100000
+  MaxK = 1
   NSc <- NTraces
   ScWire <- TrWire
   ScKind <- TrKind
@@ -297,7 +309,7 @@ def run_c29(ctx):
         ctx.diverge(Divergence("C29", "model", res.error_name or res.error, "HttpParseMC", "specification property violated in the model",
                                steps=[{"action": a, "state": s} for a, s in res.trace]))
         return
-    tlc.require_coverage(res, ["Parse", "ParseAgain", "Close", "Again", "Next"], "HttpParseMC")
+    tlc.require_coverage(res, ["Deliver", "Parse", "ParseAgain", "Close", "Again"], "HttpParseMC")
     table = json.load(open(table_path))
     g = graph.load_dot(dot)
     paths = graph.edge_cover(g, max_len=14)
@@ -332,7 +344,7 @@ def run_c29(ctx):
         if ex is not None:
             nexc += 1
             if nexc <= 10:
-                ctx.diverge(Divergence("C29", "exception", evs[-1]["ev"] if len(evs) > 1 else "Init",
+                ctx.diverge(Divergence("C29", "exception", "Parse",
                                        "%s:%s" % (evs[0]["kind"], replay.innermost_ioflo_frame(ex.__traceback__)),
                                        "%s: %s" % (type(ex).__name__, str(ex)[:200]), steps=_short(evs), extra={"wire": repr(wire)}))
             continue
